@@ -67,7 +67,9 @@ def judge(ctx, curve, dom, d, k, digest, at, fmt, cls, key, via_hash=None):
         outcome = None
     except Exception as ex:
         keys, outcome = None, "raised %s: %s" % (type(ex).__name__, ex)
-    ctx.case(cls, key="%s|%s|%s|%s|%s" % (key, par, "t" if at else "f", fmt, "ident" if ident else "-"))
+    ctx.case(cls, key="%s|%s|%s|%s|%s" % (key, par, "t" if at else "f", fmt, "ident" if ident else "-"),
+             sample=dict(curve=curve.name, d=d, k=k, digest=digest, r=r, s=s, allow_truncate=at, decoder=fmt, signer_key=Q, candidate_is_identity=ident,
+                         recovered=outcome or [(v.pubkey.point.x(), v.pubkey.point.y()) for v in keys]) if ctx.want(cls) else None)
     ctx.case("recover." + par, key=key)
     if ident:
         ctx.case("recover.identity_candidate", key=key)
